@@ -128,6 +128,7 @@ func init() {
 			return i.mkval(types.Int64, i.ctx.Ite(i.term(a[0]), i.term(a[1]), i.term(a[2]))), true
 		},
 		"Symbolic": func(fr *frame, a []value) (value, bool) { return true, true },
+		"Tier":     func(fr *frame, a []value) (value, bool) { return fr.i.eng.cfg.Tier, true },
 		"IsSym": func(fr *frame, a []value) (value, bool) {
 			v := a[0]
 			if it, ok := v.(iface); ok {
